@@ -239,22 +239,25 @@ def gen_noise(rng, prof, n):
     k = rng.choice(kinds)
     if k in ('X_ERROR', 'Y_ERROR', 'Z_ERROR', 'DEPOLARIZE1'):
         return Instr(k, [rng.choice(NOISE_P)], [T('q', Q()) for _ in range(rng.choice([1, 2]))])
+    def pairs():
+        ts = []
+        for _ in range(rng.choice([1, 1, 2])):
+            a = rng.randrange(n)
+            b = (a + 1 + rng.randrange(n - 1)) % n
+            ts += [T('q', qmap(prof, a)), T('q', qmap(prof, b))]
+        return ts
     if k == 'PAULI_CHANNEL_1':
-        return Instr(k, [rng.choice([0, 0.01, 0.125]) for _ in range(3)], [T('q', Q())])
+        return Instr(k, [rng.choice([0, 0.01, 0.125]) for _ in range(3)], [T('q', Q()) for _ in range(rng.choice([1, 1, 2, 3]))])
     if k == 'DEPOLARIZE2':
-        a = rng.randrange(n)
-        b = (a + 1 + rng.randrange(n - 1)) % n
-        return Instr(k, [rng.choice(NOISE_P)], [T('q', qmap(prof, a)), T('q', qmap(prof, b))])
+        return Instr(k, [rng.choice(NOISE_P)], pairs())
     if k == 'PAULI_CHANNEL_2':
-        a = rng.randrange(n)
-        b = (a + 1 + rng.randrange(n - 1)) % n
-        return Instr(k, [rng.choice([0, 0, 0.01, 0.03125]) for _ in range(15)], [T('q', qmap(prof, a)), T('q', qmap(prof, b))])
+        return Instr(k, [rng.choice([0, 0, 0.01, 0.03125]) for _ in range(15)], pairs())
     if k == 'E':
         qs = rng.sample(range(n), min(n, rng.choice([1, 2])))
         return Instr('E', [rng.choice(NOISE_P)], [T('pauli', qmap(prof, q), pauli=rng.choice('XYZ')) for q in qs])
     if k == 'HERALDED_ERASE':
-        return Instr(k, [rng.choice(NOISE_P)], [T('q', Q())])
-    return Instr(k, [rng.choice([0, 0.01, 0.125]) for _ in range(4)], [T('q', Q())])
+        return Instr(k, [rng.choice(NOISE_P)], [T('q', Q()) for _ in range(rng.choice([1, 1, 2, 3]))])
+    return Instr(k, [rng.choice([0, 0.01, 0.125]) for _ in range(4)], [T('q', Q()) for _ in range(rng.choice([1, 1, 2, 3]))])
 
 
 def gen_circuit(rng, gates, prof=None, sweep_count=3):
